@@ -8,6 +8,7 @@ use crate::parser::ast::{
     BinaryOperatorKind, BinaryOperatorSymbol, Expression, Expression_, ToplevelItem,
 };
 use crate::parser::diagnostics::ErrorMessage;
+use crate::parser::position::Position;
 use crate::parser::visitor::Visitor;
 use crate::{msgcode, msgtext};
 
@@ -42,10 +43,15 @@ fn is_pure_(expr: &Expression_) -> bool {
 /// binary operator node, so deleting from there to the end of the
 /// operand removes ` <op> operand` without crossing a parenthesis
 /// boundary. It is `None` for the leftmost operand, which has no left
-/// sibling.
+/// sibling, and for the first operand inside parentheses, whose left
+/// sibling is outside them.
+///
+/// `delete_to` is the position whose end is the end of the operand,
+/// including any parentheses that only wrap this operand.
 struct Operand<'a> {
     expr: &'a Expression,
     delete_from: Option<usize>,
+    delete_to: &'a Position,
 }
 
 /// Collect operands from a boolean chain, returning them as references
@@ -71,10 +77,26 @@ fn collect_operands_<'a>(
             collect_operands_(rhs, op_sym, Some(lhs.position.end_offset), result);
         }
         Expression_::Parentheses(paren) => {
-            collect_operands_(&paren.expr, op_sym, delete_from, result);
+            // Deleting from outside the parentheses to an operand
+            // inside them would remove the `(` but not the `)`.
+            let mut inner_operands = Vec::new();
+            collect_operands_(&paren.expr, op_sym, None, &mut inner_operands);
+
+            // `(x)` is a single operand, so we can delete it along
+            // with its parentheses.
+            if let [operand] = inner_operands.as_mut_slice() {
+                operand.delete_from = delete_from;
+                operand.delete_to = &expr.position;
+            }
+
+            result.extend(inner_operands);
         }
         _ => {
-            result.push(Operand { expr, delete_from });
+            result.push(Operand {
+                expr,
+                delete_from,
+                delete_to: &expr.position,
+            });
         }
     }
 }
@@ -111,6 +133,9 @@ impl Visitor for RepeatedBoolVisitor {
                             let fixes = if let Some(delete_from) = operand.delete_from {
                                 let mut fix_pos = expr.position.clone();
                                 fix_pos.start_offset = delete_from;
+                                fix_pos.end_offset = operand.delete_to.end_offset;
+                                fix_pos.end_line_number = operand.delete_to.end_line_number;
+                                fix_pos.end_column = operand.delete_to.end_column;
                                 vec![Autofix {
                                     description: "Remove this duplicate".to_owned(),
                                     position: fix_pos,
